@@ -124,6 +124,15 @@ def main():
     meta['caught_by'] = result.get('violations_by_property', {})
     meta['needs_to_manifest'] = meta.get('needs', '')
     out_dir = os.path.join(V, 'seeded', '%s-%s' % (pid, var))
+    prev = os.path.join(out_dir, 'meta.json')
+    if os.path.exists(prev):
+        pm = json.load(open(prev))
+        meta['first_verdict'] = pm.get('first_verdict', 'caught' if pm.get('caught') else 'missed')
+        for k in ('strengthened', 'missed_reason'):
+            if k in pm:
+                meta[k] = pm[k]
+    else:
+        meta['first_verdict'] = 'caught' if meta['caught'] else 'missed'
     if ok:
         os.makedirs(out_dir, exist_ok=True)
         shutil.copy(os.path.join(d, 'patch.diff'), out_dir)
